@@ -66,6 +66,20 @@ theorem new_str (o : TraceOpts) (nl : Bool) (a : Arr) (h : Spec.wf (strDT o) nl 
   obtain ⟨ty, v, offs, data, rfl, hu, hv⟩ := wf_bytes hdt h
   exact ⟨ty, v, offs, data, rfl, hu (by unfold strDT; split <;> simp), hv⟩
 
+/-- a well-formed `Dictionary(UInt32, Utf8 | LargeUtf8)` array (strings under `string_dictionary_encoding`, enums without
+data under `enums_without_data_as_strings`) is accepted: integer keys, string values without a validity bitmap -/
+theorem new_dict (o : TraceOpts) (nl : Bool) (a : Arr) (h : Spec.wf (.dictionary .uint32 (strDT o)) nl a = true) :
+    Read.new Read.Fixes.all a = .ok () := by
+  obtain ⟨ks, vs, rfl, hk, hv⟩ := wf_dictionary h
+  obtain ⟨kty, kv, kvals, rfl, hki⟩ := wf_int .u32 hk
+  obtain ⟨ty, vv, offs, data, rfl, hu, hvv⟩ := new_str o false vs hv
+  have : vv = none := by
+    cases vv with
+    | none => rfl
+    | some b => simp [Spec.validityOk] at hvv
+  subst this
+  simp [Read.new, hki, hu]
+
 theorem new_prim (o : TraceOpts) (p : Prim) (nl : Bool) (a : Arr) (h : Spec.wf (primDT o p) nl a = true) :
     Read.new Read.Fixes.all a = .ok () := by
   cases p with
@@ -79,36 +93,45 @@ theorem new_prim (o : TraceOpts) (p : Prim) (nl : Bool) (a : Arr) (h : Spec.wf (
   | str =>
     simp only [primDT] at h
     split at h
-    · obtain ⟨ks, vs, rfl, hk, hv⟩ := wf_dictionary h
-      obtain ⟨kty, kv, kvals, rfl, hki⟩ := wf_int .u32 hk
-      obtain ⟨ty, vv, offs, data, rfl, hu, hvv⟩ := new_str o false vs hv
-      have : vv = none := by
-        cases vv with
-        | none => rfl
-        | some b => simp [Spec.validityOk] at hvv
-      subst this
-      simp [Read.new, hki, hu]
+    · exact new_dict o nl a h
     · obtain ⟨ty, vv, offs, data, rfl, _, _⟩ := new_str o nl a h; rfl
+
+/-- shape of a well-formed Union array: dense (offsets present), as many offsets as type ids, children matching the
+union fields with consecutive type ids from 0 -/
+theorem wf_union_dense {nl : Bool} {a : Arr} {ufs : UFields} {m : UnionMode} (h : Spec.wf (.union ufs m) nl a = true) :
+    ∃ types offs cols, a = .union types (some offs) cols ∧ offs.length = types.length ∧
+      Spec.wfUFields ufs cols 0 = true := by
+  cases a <;> try (simp [Spec.wf] at h)
+  case union types offs cols =>
+    cases offs with
+    | none => simp at h
+    | some os => exact ⟨types, os, cols, rfl, by simpa using h.1.1.2, h.1.2⟩
+  case prim ty v vals => cases ty <;> simp [primMatches] at h
+
+/-- child `i` of the Union an enum is traced to is `variantField` of the variant -/
+theorem mappingVariants_cons (o : TraceOpts) (i : Nat) (vn : String) (v : Variant) (rest : Variants) :
+    mappingVariants o i (.cons vn v rest) = .cons (i : Int) (variantField o vn v) (mappingVariants o (i + 1) rest) := by
+  cases v <;> simp [mappingVariants, variantField]
 
 mutual
 theorem new_of_wf (o : TraceOpts) : ∀ (t : Ty) (dt : DataType) (nb : Bool) (md : Metadata) (nl : Bool) (a : Arr),
-    noEnum t = true → mappingDT o t = (dt, nb, md) → Spec.wf dt nl a = true → Read.new Read.Fixes.all a = .ok ()
-  | .prim p, dt, nb, md, nl, a, _, hm, h => by
+    mappingDT o t = (dt, nb, md) → Spec.wf dt nl a = true → Read.new Read.Fixes.all a = .ok ()
+  | .prim p, dt, nb, md, nl, a, hm, h => by
     simp only [mappingDT, Prod.mk.injEq] at hm; obtain ⟨rfl, rfl, rfl⟩ := hm; exact new_prim o p nl a h
-  | .unit, dt, nb, md, nl, a, _, hm, h => by
+  | .unit, dt, nb, md, nl, a, hm, h => by
     simp only [mappingDT, Prod.mk.injEq] at hm; obtain ⟨rfl, rfl, rfl⟩ := hm
     obtain ⟨_, rfl⟩ := wf_null h; rfl
-  | .unitStruct _, dt, nb, md, nl, a, _, hm, h => by
+  | .unitStruct _, dt, nb, md, nl, a, hm, h => by
     simp only [mappingDT, Prod.mk.injEq] at hm; obtain ⟨rfl, rfl, rfl⟩ := hm
     obtain ⟨_, rfl⟩ := wf_null h; rfl
-  | .option t, dt, nb, md, nl, a, hn, hm, h => by
+  | .option t, dt, nb, md, nl, a, hm, h => by
     rcases hm' : mappingDT o t with ⟨dt', nb', md'⟩
     simp only [mappingDT, hm', Prod.mk.injEq] at hm; obtain ⟨rfl, rfl, rfl⟩ := hm
-    exact new_of_wf o t _ _ _ nl a (by simpa [noEnum] using hn) hm' h
-  | .newtype _ t, dt, nb, md, nl, a, hn, hm, h => by
+    exact new_of_wf o t _ _ _ nl a hm' h
+  | .newtype _ t, dt, nb, md, nl, a, hm, h => by
     simp only [mappingDT] at hm
-    exact new_of_wf o t _ _ _ nl a (by simpa [noEnum] using hn) hm h
-  | .vec t, dt, nb, md, nl, a, hn, hm, h => by
+    exact new_of_wf o t _ _ _ nl a hm h
+  | .vec t, dt, nb, md, nl, a, hm, h => by
     rcases hm' : mappingDT o t with ⟨dt', nb', md'⟩
     simp only [mappingDT, hm', Prod.mk.injEq] at hm; obtain ⟨rfl, rfl, rfl⟩ := hm
     have hel : ∃ lg v offs fm el, a = .list lg v offs fm el ∧ fm.metadata = md' ∧ Spec.wf dt' nb' el = true := by
@@ -120,62 +143,103 @@ theorem new_of_wf (o : TraceOpts) : ∀ (t : Ty) (dt : DataType) (nb : Bool) (md
         obtain ⟨v, offs, fm, el, rfl, hmm, h⟩ := wf_list h
         exact ⟨_, v, offs, fm, el, rfl, meta_md hmm, h⟩
     obtain ⟨lg, vv, offs, fm, el, rfl, hmd, hel⟩ := hel
-    have ih := new_of_wf o t _ _ _ nb' el (by simpa [noEnum] using hn) hm' hel
+    have ih := new_of_wf o t _ _ _ nb' el hm' hel
     simp [Read.new, hmd, mapping_md o t _ _ _ hm', ih, bind, Except.bind]
-  | .tuple ts, dt, nb, md, nl, a, hn, hm, h => by
+  | .tuple ts, dt, nb, md, nl, a, hm, h => by
     simp only [mappingDT, Prod.mk.injEq] at hm; obtain ⟨rfl, rfl, rfl⟩ := hm
     obtain ⟨len, vv, cols, rfl, _, hcols⟩ := wf_struct h
-    simpa [Read.new] using newPos_of_wf o ts 0 cols len (by simpa [noEnum] using hn) hcols
-  | .tupleStruct _ ts, dt, nb, md, nl, a, hn, hm, h => by
+    simpa [Read.new] using newPos_of_wf o ts 0 cols len hcols
+  | .tupleStruct _ ts, dt, nb, md, nl, a, hm, h => by
     simp only [mappingDT, Prod.mk.injEq] at hm; obtain ⟨rfl, rfl, rfl⟩ := hm
     obtain ⟨len, vv, cols, rfl, _, hcols⟩ := wf_struct h
-    simpa [Read.new] using newPos_of_wf o ts 0 cols len (by simpa [noEnum] using hn) hcols
-  | .struct _ fs, dt, nb, md, nl, a, hn, hm, h => by
+    simpa [Read.new] using newPos_of_wf o ts 0 cols len hcols
+  | .struct _ fs, dt, nb, md, nl, a, hm, h => by
     simp only [mappingDT, Prod.mk.injEq] at hm; obtain ⟨rfl, rfl, rfl⟩ := hm
     obtain ⟨len, vv, cols, rfl, _, hcols⟩ := wf_struct h
-    simpa [Read.new] using newFields_of_wf o fs cols len (by simpa [noEnum] using hn) hcols
-  | .map k v, dt, nb, md, nl, a, hn, hm, h => by
+    simpa [Read.new] using newFields_of_wf o fs cols len hcols
+  | .map k v, dt, nb, md, nl, a, hm, h => by
     rcases hk : mappingDT o k with ⟨kdt, knb, kmd⟩
     rcases hv : mappingDT o v with ⟨vdt, vnb, vmd⟩
     simp only [mappingDT, hk, hv, Prod.mk.injEq] at hm; obtain ⟨rfl, rfl, rfl⟩ := hm
-    simp only [noEnum, Bool.and_eq_true] at hn
     obtain ⟨vv, offs, mm, ks, vs, rfl, hmk, hmv, hwk, hwv⟩ := wf_map h
-    have ihk := new_of_wf o k _ _ _ knb ks hn.1 hk hwk
-    have ihv := new_of_wf o v _ _ _ vnb vs hn.2 hv hwv
+    have ihk := new_of_wf o k _ _ _ knb ks hk hwk
+    have ihv := new_of_wf o v _ _ _ vnb vs hv hwv
     have e1 : mm.keys.metadata = kmd := meta_md hmk
     have e2 : mm.values.metadata = vmd := meta_md hmv
     simp [Read.new, e1, e2, mapping_md o k _ _ _ hk, mapping_md o v _ _ _ hv, ihk, ihv, bind, Except.bind]
-  | .enum _ _, _, _, _, _, _, hn, _, _ => by simp [noEnum] at hn
+  | .enum _ vars, dt, nb, md, nl, a, hm, h => by
+    simp only [mappingDT] at hm
+    split at hm
+    · simp only [Prod.mk.injEq] at hm; obtain ⟨rfl, rfl, rfl⟩ := hm
+      exact new_dict o nl a h
+    · simp only [Prod.mk.injEq] at hm; obtain ⟨rfl, rfl, rfl⟩ := hm
+      obtain ⟨types, offs, cols, rfl, hlen, hcols⟩ := wf_union_dense h
+      have ih := newVariants_of_wf o vars 0 cols (by simpa using hcols)
+      simp [Read.new, hlen, ih]
 theorem newPos_of_wf (o : TraceOpts) : ∀ (ts : Tys) (i : Nat) (cols : ArrFields) (len : Nat),
-    noEnumTys ts = true → Spec.wfFields (mappingPos o i ts) cols len = true → Read.newFields Read.Fixes.all cols = .ok ()
-  | .nil, _, .nil, _, _, _ => rfl
-  | .nil, _, .cons _ _ _, _, _, h => by simp [mappingPos, Spec.wfFields] at h
-  | .cons t r, i, .nil, _, _, h => by
+    Spec.wfFields (mappingPos o i ts) cols len = true → Read.newFields Read.Fixes.all cols = .ok ()
+  | .nil, _, .nil, _, _ => rfl
+  | .nil, _, .cons _ _ _, _, h => by simp [mappingPos, Spec.wfFields] at h
+  | .cons t r, i, .nil, _, h => by
     rcases hm : mappingDT o t with ⟨dt, nb, md⟩
     simp [mappingPos, hm, Spec.wfFields] at h
-  | .cons t r, i, .cons fm a rest, len, hn, h => by
+  | .cons t r, i, .cons fm a rest, len, h => by
     rcases hm : mappingDT o t with ⟨dt, nb, md⟩
-    simp only [noEnumTys, Bool.and_eq_true] at hn
     simp only [mappingPos, hm, Spec.wfFields, Bool.and_eq_true] at h
     have e : fm.metadata = md := meta_md h.1.1.1
-    have ih1 := new_of_wf o t _ _ _ nb a hn.1 hm (by simpa [Field.dataType, Field.nullable] using h.1.2)
-    have ih2 := newPos_of_wf o r (i + 1) rest len hn.2 h.2
+    have ih1 := new_of_wf o t _ _ _ nb a hm (by simpa [Field.dataType, Field.nullable] using h.1.2)
+    have ih2 := newPos_of_wf o r (i + 1) rest len h.2
     simp [Read.newFields, e, mapping_md o t _ _ _ hm, ih1, ih2, bind, Except.bind]
 theorem newFields_of_wf (o : TraceOpts) : ∀ (fs : TFields) (cols : ArrFields) (len : Nat),
-    noEnumFields fs = true → Spec.wfFields (mappingFields o fs) cols len = true → Read.newFields Read.Fixes.all cols = .ok ()
-  | .nil, .nil, _, _, _ => rfl
-  | .nil, .cons _ _ _, _, _, h => by simp [mappingFields, Spec.wfFields] at h
-  | .cons n s t r, .nil, _, _, h => by
+    Spec.wfFields (mappingFields o fs) cols len = true → Read.newFields Read.Fixes.all cols = .ok ()
+  | .nil, .nil, _, _ => rfl
+  | .nil, .cons _ _ _, _, h => by simp [mappingFields, Spec.wfFields] at h
+  | .cons n s t r, .nil, _, h => by
     rcases hm : mappingDT o t with ⟨dt, nb, md⟩
     simp [mappingFields, hm, Spec.wfFields] at h
-  | .cons n s t r, .cons fm a rest, len, hn, h => by
+  | .cons n s t r, .cons fm a rest, len, h => by
     rcases hm : mappingDT o t with ⟨dt, nb, md⟩
-    simp only [noEnumFields, Bool.and_eq_true] at hn
     simp only [mappingFields, hm, Spec.wfFields, Bool.and_eq_true] at h
     have e : fm.metadata = md := meta_md h.1.1.1
-    have ih1 := new_of_wf o t _ _ _ nb a hn.1 hm (by simpa [Field.dataType, Field.nullable] using h.1.2)
-    have ih2 := newFields_of_wf o r rest len hn.2 h.2
+    have ih1 := new_of_wf o t _ _ _ nb a hm (by simpa [Field.dataType, Field.nullable] using h.1.2)
+    have ih2 := newFields_of_wf o r rest len h.2
     simp [Read.newFields, e, mapping_md o t _ _ _ hm, ih1, ih2, bind, Except.bind]
+/-- one child of the Union: a well-formed array of `variantField o vn kind` is accepted, and the child's metadata (none,
+or TupleAsStruct) is a known strategy -/
+theorem newVariant_of_wf (o : TraceOpts) : ∀ (kind : Variant) (vn : String) (a : Arr),
+    Spec.wf (variantField o vn kind).dataType (variantField o vn kind).nullable a = true →
+    Read.strategyOk (variantField o vn kind).metadata = .ok () ∧ Read.new Read.Fixes.all a = .ok ()
+  | .unit, vn, a, h => by
+    refine ⟨rfl, ?_⟩
+    obtain ⟨_, rfl⟩ := wf_null (nl := true) h; rfl
+  | .newtype t, vn, a, h => by
+    rcases hm : mappingDT o t with ⟨dt, nb, md⟩
+    simp only [variantField, hm] at h ⊢
+    exact ⟨mapping_md o t _ _ _ hm, new_of_wf o t _ _ _ nb a hm h⟩
+  | .tuple ts, vn, a, h => by
+    refine ⟨strategyOk_tuple, ?_⟩
+    simp only [variantField] at h
+    obtain ⟨len, vv, cols, rfl, _, hcols⟩ := wf_struct h
+    simpa [Read.new] using newPos_of_wf o ts 0 cols len hcols
+  | .struct fs, vn, a, h => by
+    refine ⟨strategyOk_nil, ?_⟩
+    simp only [variantField] at h
+    obtain ⟨len, vv, cols, rfl, _, hcols⟩ := wf_struct h
+    simpa [Read.new] using newFields_of_wf o fs cols len hcols
+/-- the children of the Union an enum is traced to: consecutive type ids, every child accepted -/
+theorem newVariants_of_wf (o : TraceOpts) : ∀ (vars : Variants) (i : Nat) (cols : ArrUFields),
+    Spec.wfUFields (mappingVariants o i vars) cols (i : Int) = true → Read.newUFields Read.Fixes.all cols i = .ok ()
+  | .nil, _, .nil, _ => rfl
+  | .nil, _, .cons _ _ _ _, h => by simp [mappingVariants, Spec.wfUFields] at h
+  | .cons vn v r, i, .nil, h => by simp [mappingVariants_cons, Spec.wfUFields] at h
+  | .cons vn v r, i, .cons tid fm a rest, h => by
+    simp only [mappingVariants_cons, Spec.wfUFields, Bool.and_eq_true, beq_iff_eq] at h
+    obtain ⟨⟨⟨⟨h1, _⟩, hmm⟩, hw⟩, hrest⟩ := h
+    subst h1
+    have e : fm.metadata = (variantField o vn v).metadata := meta_md hmm
+    obtain ⟨hs, ih1⟩ := newVariant_of_wf o v vn a hw
+    have ih2 := newVariants_of_wf o r (i + 1) rest (by simpa using hrest)
+    simp [Read.newUFields, e, hs, ih1, ih2, bind, Except.bind]
 end
 
 /-! ### strings of typed values are valid UTF-8 -/
